@@ -432,7 +432,10 @@ func (an *Analysis) createType(typ types.Type, ctx context) Type {
 			return str
 		} else {
 			// otherwise, analyze the underlying type
-			under := an.handleType(typ.Underlying(), ctx).(AnonymousType)
+			under, ok := an.handleType(typ.Underlying(), ctx).(AnonymousType)
+			if !ok {
+				panic("unsupported named type " + typ.String() + " (underlying type " + typ.Underlying().String() + ")")
+			}
 			return &Named{name: name, Underlying: under}
 		}
 	}
